@@ -287,6 +287,13 @@ func execBankOps(ops []sx) sx {
 				b.r.Reset(b.data)
 				b.pos = 0
 			}
+			if i%2 == 0 {
+				// every other string op reads a content that depends on the length only, so that equal
+				// strings recur - within one use of a bank and across Close / reuse from the pool
+				for j := 0; j < n; j++ {
+					b.data[b.pos+j] = byte('a' + (j*7+n)%23)
+				}
+			}
 			want := append([]byte(nil), b.data[b.pos:b.pos+n]...)
 			rb := c10rbOf(b.r)
 			s, err := b.r.NextAsString(n)
@@ -304,7 +311,11 @@ func execBankOps(ops []sx) sx {
 			n := int(a[1].int())
 			in := make([]byte, n)
 			for j := range in {
-				in[j] = byte(j*13 + i*5 + 3)
+				if i%2 == 0 {
+					in[j] = byte('a' + (j*7+n)%23) // recurring content, see "s"
+				} else {
+					in[j] = byte(j*13 + i*5 + 3)
+				}
 			}
 			want := append([]byte(nil), in...)
 			s := e.rb.ToString(in)
